@@ -8,17 +8,28 @@
    * the PARSER (parser.py, _parse_simple_lines): every block kind re-enters _parse_simple_lines with a
      child context that is a shallow copy of the parent's, so the set ctx["lcd_tick_names"] is shared;
      the branch `RE_LCD_ANIMATE` adds the display's name to it at every call site it parses, whatever
-     the nesting.  parse() then prepends one LCDTick per name of sorted(lcd_tick_names) to loop_body;
-   * the EMITTER (emitter.py, _emit_block): walks the node lists in order - IfStatement: every branch
-     body then else_body; WhileLoop / ForRangeLoop: body; TryStatement: try_body then every handler
-     body - and at each LCDAnimate takes counter = lcd_animation_counter[name], appends
-     (__redu_lcd_anim_<name>_<counter>, style) to lcd_animations[name] and increments the counter.
-     An LCDTick emits one tick call per entry of lcd_animations[name] present at that moment.
+     the nesting; _parse_function parses a `def` body with a shallow copy as well, so call sites inside
+     functions land in the same set.  parse() then prepends one LCDTick per name of
+     sorted(lcd_tick_names) to loop_body (only the set matters, not where a def stands in the script);
+   * the EMITTER (emitter.py, emit: _register_lcd_animations / _nested_blocks): before any statement is
+     emitted it walks setup_body, then loop_body, then the body of every function, node lists in order -
+     IfStatement: every branch body then else_body; WhileLoop / ForRangeLoop: body; TryStatement:
+     try_body then every handler body - and at each LCDAnimate takes counter =
+     lcd_animation_counter[name], appends (__redu_lcd_anim_<name>_<counter>, style) to
+     lcd_animations[<display of name>] and increments the counter.  The statements are emitted
+     afterwards, in the same order: an LCDAnimate takes the next name of its display name by the same
+     count (the running counter is shared by setup, loop and the function bodies), i.e. the variable
+     registered for it, an LCDTick emits one tick call per
+     entry of lcd_animations[<display>] - all of them - and one global is declared per entry.
 
    A statement is an lcd.animate call site, any other simple statement, or a block with its bodies in
    source order (if: the if/elif branches then the else body; while/for: one body; try: the try body
-   then the handlers).  Call sites inside `def` bodies are outside this model (finding
-   F-C18-animate-in-function-undeclared). *)
+   then the handlers).  The second argument of the walks below is what is registered after the
+   statements that precede the main loop: the main-loop body followed by the function bodies in
+   definition order ([prog_ticks] / [prog_vars] take the function bodies separately).  Until the
+   repairs recorded as F-C18-animate-in-loop-never-ticked / F-C18-animate-in-function-undeclared the
+   registration happened while the statements were emitted (LCDTick saw the setup sites only; sites in
+   function bodies were registered in a copy that was thrown away). *)
 From Coq Require Import ZArith List Bool.
 From RV Require Import Host.LCDAnim Device.DLCDAnim.
 Import ListNotations.
@@ -58,16 +69,22 @@ Fixpoint emit_stmt (s : stmt) (r : registry) : registry :=
   end.
 Definition emit_block (b : list stmt) (r : registry) : registry := fold_left (fun r2 s => emit_stmt s r2) b r.
 
-(* emit(): setup_body is walked first, then loop_body, whose head is the LCDTick list: each LCDTick
-   prints a tick call for every variable of its display registered so far (i.e. by setup_body) *)
-Definition tree_loop_ticks (setup loop : list stmt) : list (Z * Z * style) :=
-  let r1 := emit_block setup [] in
-  flat_map (fun name => of_name name r1) (parser_ticks setup loop).
+(* emit(): the registration pass walks setup_body, then loop_body (then the function bodies) before any
+   statement is emitted; each LCDTick at the head of loop() then prints a tick call for every variable
+   of its display in the complete registry *)
+Definition tree_registry (setup loop : list stmt) : registry := emit_block loop (emit_block setup []).
 
-(* the state variables declared as globals after both walks, grouped by display *)
-Definition tree_all_vars (setup loop : list stmt) : list (Z * Z * style) :=
-  let r2 := emit_block loop (emit_block setup []) in
-  flat_map (fun name => of_name name r2) (parser_ticks setup loop).
+Definition tree_loop_ticks (setup loop : list stmt) : list (Z * Z * style) :=
+  flat_map (fun name => of_name name (tree_registry setup loop)) (parser_ticks setup loop).
+
+(* the state variables declared as globals: one per registry entry *)
+Definition tree_all_vars (setup loop : list stmt) : list (Z * Z * style) := tree_registry setup loop.
+
+(* a whole program: statements before the main loop, main-loop body, function bodies in definition order *)
+Definition prog_ticks (setup loop : list stmt) (funs : list (list stmt)) : list (Z * Z * style) :=
+  tree_loop_ticks setup (loop ++ concat funs).
+Definition prog_vars (setup loop : list stmt) (funs : list (list stmt)) : list (Z * Z * style) :=
+  tree_all_vars setup (loop ++ concat funs).
 
 (* ---- specification vocabulary: the call sites of a statement / block in source order *)
 Fixpoint flat (s : stmt) : list site :=
